@@ -344,23 +344,8 @@ func cmdSession(args []string) {
 
 // ---- ServeHTTP ----
 
-type svCase struct {
-	C struct {
-		Flushable bool   `json:"flushable"`
-		Lid       string `json:"lid"`
-		OnSession string `json:"onsession"`
-		Provider  string `json:"provider"`
-	} `json:"c"`
-	E struct {
-		Subscribed bool   `json:"subscribed"`
-		Status     int    `json:"status"`
-		Wrote      string `json:"wrote"`
-		LidSet     bool   `json:"lidset"`
-		Topics     string `json:"topics"`
-	} `json:"e"`
-}
-
 type recProvider struct {
+	pubs    [][]string
 	subs    []sse.Subscription
 	err     error
 	send    bool
@@ -378,26 +363,85 @@ func (p *recProvider) Subscribe(_ context.Context, s sse.Subscription) error {
 	}
 	return p.err
 }
-func (p *recProvider) Publish(*sse.Message, []string) error { return nil }
-func (p *recProvider) Shutdown(context.Context) error       { return nil }
+func (p *recProvider) Publish(_ *sse.Message, tp []string) error {
+	p.pubs = append(p.pubs, append([]string(nil), tp...))
+	return nil
+}
+func (p *recProvider) Shutdown(context.Context) error { return nil }
 
 var errProvider = errors.New("provider refuses")
 
+type svOp struct {
+	Op string `json:"op"`
+	C  struct {
+		Flushable bool   `json:"flushable"`
+		Lid       string `json:"lid"`
+		OnSession string `json:"onsession"`
+		Provider  string `json:"provider"`
+	} `json:"c"`
+	E struct {
+		Subscribed bool   `json:"subscribed"`
+		Status     int    `json:"status"`
+		Wrote      string `json:"wrote"`
+		LidSet     bool   `json:"lidset"`
+		Topics     string `json:"topics"`
+	} `json:"e"`
+	T  string `json:"t"`
+	PE string `json:"pe"`
+}
+
+func topicsOK(got []string, want string) bool {
+	switch want {
+	case "given2":
+		return len(got) == 2 && got[0] == "a" && got[1] == "b"
+	case "given1":
+		return len(got) == 1 && got[0] == "a"
+	}
+	return len(got) == 1 && got[0] == sse.DefaultTopic
+}
+
+// cmdServe runs every exported sequence of operations (requests through Server.ServeHTTP, Server.Publish) in this one
+// process: what each operation does must be what ServeHTTP.tla says of that operation alone.
 func cmdServe(args []string) {
 	fs := flag.NewFlagSet("serve", flag.ExitOnError)
-	in := fs.String("in", "", "json cases exported by ServeHTTP.tla")
+	in := fs.String("in", "", "sequences exported by ServeHTTP.tla (ndjson)")
 	out := fs.String("out", "", "result file")
 	fs.Parse(args)
 	res := newResult()
-	eachLine(*in, 1, func(line []byte, _ int) {
-		var all struct {
-			Cases []svCase `json:"cases"`
+	nseq := eachLine(*in, 1, func(line []byte, idx int) {
+		var seq struct {
+			Ops []svOp `json:"ops"`
 		}
-		if err := json.Unmarshal(line, &all); err != nil {
-			fatal("bad cases: %v", err)
+		if err := json.Unmarshal(line, &seq); err != nil {
+			fatal("bad sequence: %v", err)
 		}
-		for _, cs := range all.Cases {
-			for _, shape := range []string{"flusher", "flusherr", "wrap2"} {
+		shapes := []string{"flusher", "flusherr", "wrap2"}
+		if len(seq.Ops) > 1 {
+			shapes = shapes[idx%3 : idx%3+1]
+		}
+		for _, shape := range shapes {
+			var descs []string
+			for k, op := range seq.Ops {
+				cs := op
+				if cs.Op == "publish" {
+					p := &recProvider{}
+					s := &sse.Server{Provider: p}
+					var tp []string
+					switch cs.T {
+					case "one":
+						tp = []string{"a"}
+					case "two":
+						tp = []string{"a", "b"}
+					}
+					err := s.Publish(seMessage("m1"), tp...)
+					res.eval(1)
+					descs = append(descs, "publish("+cs.T+")")
+					if err != nil || len(p.pubs) != 1 || !topicsOK(p.pubs[0], cs.PE) {
+						res.violate(fmt.Sprintf("operation %d: Server.Publish with topics %q handed the provider %q (error %v), spec: %s  [%s]", k+1, tp, p.pubs, err, cs.PE, strings.Join(descs, " ; ")),
+							"serve:publish", map[string]any{"driver": "serve", "behaviour": seq})
+					}
+					continue
+				}
 				sh := shape
 				if !cs.C.Flushable {
 					sh = "none"
@@ -430,14 +474,21 @@ func cmdServe(args []string) {
 						w.Header().Set("Content-Type", "application/json") // a middleware's leftover: the session must replace it
 						return []string{"a", "b"}, true
 					}
+				case "accept-one-topic":
+					s.OnSession = func(http.ResponseWriter, *http.Request) ([]string, bool) { called = true; return []string{"a"}, true }
 				case "accept-empty-topics":
 					s.OnSession = func(http.ResponseWriter, *http.Request) ([]string, bool) { called = true; return []string{}, true }
 				}
 				s.ServeHTTP(w, r)
 				res.eval(1)
-				res.nontrivial(fmt.Sprintf("%+v/%s", cs.C, sh))
-				desc := fmt.Sprintf("%+v writer=%s", cs.C, sh)
-				det := map[string]any{"driver": "serve", "case": cs, "log": c.log}
+				descs = append(descs, fmt.Sprintf("%+v writer=%s", cs.C, sh))
+				desc := fmt.Sprintf("operation %d of: %s", k+1, strings.Join(descs, " ; "))
+				if len(seq.Ops) == 1 {
+					res.nontrivial(fmt.Sprintf("%+v/%s", cs.C, sh))
+				} else {
+					res.nontrivial(desc)
+				}
+				det := map[string]any{"driver": "serve", "behaviour": seq, "log": c.log}
 				bad := func(f string, a ...any) { res.violate(fmt.Sprintf(f, a...)+"  ["+desc+"]", "serve:"+cs.E.Wrote, det) }
 				if cs.C.Flushable && cs.C.OnSession != "unset" && !called {
 					bad("OnSession was not called")
@@ -450,11 +501,7 @@ func cmdServe(args []string) {
 					if sub.LastEventID.IsSet() != cs.E.LidSet || (cs.E.LidSet && sub.LastEventID.String() != "id 42") {
 						bad("subscription has LastEventID set=%v %q, spec: set=%v", sub.LastEventID.IsSet(), sub.LastEventID.String(), cs.E.LidSet)
 					}
-					okTopics := len(sub.Topics) == 1 && sub.Topics[0] == sse.DefaultTopic
-					if cs.E.Topics == "given" {
-						okTopics = len(sub.Topics) == 2 && sub.Topics[0] == "a" && sub.Topics[1] == "b"
-					}
-					if !okTopics {
+					if !topicsOK(sub.Topics, cs.E.Topics) {
 						bad("subscription has topics %q, spec: %s", sub.Topics, cs.E.Topics)
 					}
 					if _, ok := sub.Client.(*sse.Session); !ok {
@@ -485,13 +532,13 @@ func cmdServe(args []string) {
 						bad("the 500 response does not carry the provider's error: %q", wrote)
 					}
 				}
-				if !cs.C.Flushable {
-					break
-				}
 			}
 		}
-		res.sample(map[string]any{"cases": len(all.Cases), "first": all.Cases[0]})
+		if idx%997 == 0 {
+			res.sample(map[string]any{"ops": len(seq.Ops), "first": seq.Ops[0]})
+		}
 	})
+	res.Behaviours = nseq
 	res.write(*out)
 }
 
